@@ -78,11 +78,18 @@ def history_case(cid, rng, nops, ops=None):
     return Case(cid, L, nontrivial=(len(seq) >= 3 and nmut >= 1), meta={"dist": {"ops": min(len(seq), 120) // 20 * 20}})
 
 
-def frozen_case(cid, rng, via):
+def frozen_case(cid, rng, via, bare=None):
     """metadata held by a table-metadata object, built through the API or returned by the reader, is frozen"""
     t = G.rand_table(rng, ncols=rng.choice([1, 2, 3]), nslices=0)
     if not t["tmeta"]: t["tmeta"].append((b"a", 2, b"\1\0\0\0", None))
     L, tmh, _ = G.table_script(t)
+    if bare is not None:
+        # no column, or columns without any metadata entry: the file-wide name list is empty
+        t = {"tmeta": [(b"a", 2, b"\1\0\0\0", b"\2\0\0\0")], "cols": [{}] * bare}
+        L = ["mdnew 1", "mdaddint 1 %s 1 2" % name_hex(b"a"), "tmnew 1 1"]
+        for k in range(bare):
+            L += ["mdnew %d" % (5 + k), "tmadd 1 %d" % (5 + k)]
+        tmh = 1
     if via == "read":
         L += ["out 1", "wfh 1", "wtm 1 %d" % tmh, "inw 1 1", "rfh 1", "rtm 1 2"]
         tmh = 2
@@ -126,3 +133,7 @@ def cases(rng, tier):
     for i in range({"quick": 30, "thorough": 300, "search": 10}[tier]):
         idx += 1
         yield frozen_case("f%d" % idx, rng, rng.choice(["build", "read"]))
+    for bare in (0, 1, 2):
+        for via in ("build", "read"):
+            idx += 1
+            yield frozen_case("f%d" % idx, rng, via, bare=bare)
